@@ -17,7 +17,11 @@ ID = 'C15'
 NAMESPACE = 'VL.C15'
 LEAN_MODULES = ['VotelibProofs.Props.C15']
 GEN_MODULES = ['Divisor']
-REQUIRED = []
+REQUIRED = ['keeps_direct_seats', 'house_grows_by_adj', 'house_grows_by_adj_of_fills', 'haEval_fills', 'haEval_nodup',
+            'adj_zero_iff_no_overhang', 'allow_adj_zero_iff', 'allow_adj_eq_overhang', 'natSub_eq_max',
+            'level_is_least', 'meets_lowest_iff', 'level_least_enlargement', 'level_zero_outside_tier_witness',
+            'level_terminates', 'd_hondt_unbounded', 'sainte_lague_unbounded', 'level_final_is_proportional',
+            'level_cty_is_least']
 REQUIRED_COUNTERS = ['overhang_present', 'no_overhang', 'party_outside_tier', 'party_without_votes',
                      'levelling_iterations_ge2', 'by_constituency', 'multistage_wrapped',
                      'allow', 'level', 'd_hondt', 'sainte_lague', 'hare_lr', 'tie_in_baseline']
